@@ -48,9 +48,9 @@ def make_bundle(rng, w):
   pd = []
   for s in specs:
     if ml.is_per_position(s):
-      if rng.random() < 0.6:
+      if ml.is_loss(s) or rng.random() < 0.6:
         pd.append(['pd', s, Dpp])                      # D == L: the only shape PerDomain handles (see PDPP_KEY)
-    elif rng.random() < 0.5 or s[0] in ('cm', 'acc'):
+    elif ml.is_loss(s) or rng.random() < 0.5 or s[0] in ('cm', 'acc'):
       pd.append(['pd', s, D])
   return specs + pd
 
@@ -67,12 +67,48 @@ def gen_example(rng, w):
           'd': rng.randrange(min(w['D'], w['Dpp']))}
 
 
+BIG = [float(np.float32(3e38)), float(np.float32(1e38)), float(2.0 ** 127), float(np.float32(3.4e38)), float(2.0 ** 100)]
+SENTINEL = Fraction(12345)      # stands for a non-finite statistic of a MASKED row in the protocol
+
+
+def gen_junk(rng, w):
+  """Content of a masked padding row: any value of the example/prediction types within the metric's
+  input domain — half of the time with extreme finite float32 scores (magnitude up to ~3e38, mixed
+  signs), whose per-example statistics (cross-entropy) overflow to +inf.  Targets / domain ids stay
+  in range."""
+  e = gen_example(rng, w)
+  if rng.random() < 0.5:
+    return e
+
+  def extreme_row(n):
+    mode = rng.randrange(3)
+    row = []
+    for _ in range(n):
+      if mode == 0 or rng.random() < 0.7:
+        row.append(rng.choice([-1.0, 1.0]) * rng.choice(BIG))
+      else:
+        row.append(float(rng.randint(-2, 2)))
+    if all(v > 0 for v in row) or all(v < 0 for v in row):
+      row[rng.randrange(n)] *= -1.0                      # mixed signs: log-softmax spans > 3e38
+    return row
+
+  C, L = w['C'], w['L']
+  e['p'] = extreme_row(C)
+  e['ps'] = [extreme_row(C) if rng.random() < 0.8 else e['ps'][i] for i in range(L)]
+  if rng.random() < 0.7:
+    # aim the targets at the most negative class so that the cross-entropy is +inf
+    e['y'] = int(np.argmin(e['p']))
+    e['ys'] = [int(np.argmin(r)) if rng.random() < 0.8 else t for r, t in zip(e['ps'], e['ys'])]
+  return e
+
+
 class C05(core.Property):
   ID = 'C05'
   RULE = ('eval cases = (metric bundle: every built-in metric class incl. per-position, PerDomain and '
           'ConfusionMatrix variants; 0..12 examples; a partition into batches by the real padded_batch or '
           'by hand with arbitrary mask positions, random batch order, padded rows overwritten with random '
-          'in-domain content, batches without a mask feature, fully masked batches); stat cases = raw '
+          'in-domain content — half of it extreme finite float32 scores up to ~3e38 with mixed signs, whose '
+          'per-example loss statistics are +inf —, batches without a mask feature, fully masked batches); stat cases = raw '
           'MeanStat/SumStat new/merge/reduce/result on dyadic values incl. values outside the domain; '
           'non-trivial = at least one real example and (more than one batch or a masked row); distinct by digest')
   TRUSTED = ['per-example statistics are taken from the real evaluate_example (under vmap, spot-checked '
@@ -259,14 +295,15 @@ class C05(core.Property):
         b = {k: np.array(v) for k, v in b.items()}
         for i, m in enumerate(mask):
           if not m:                                   # overwrite the padding with in-domain junk
-            junk = self._arrays([gen_example(jrng, w)], w)
+            junk = self._arrays([gen_junk(jrng, w)], w)
             for k in junk:
               b[k][i] = junk[k][0]
-        rows = [{'y': int(b['y'][i]), 'ys': b['ys'][i].tolist(), 'p': [int(v) for v in b['p'][i]],
-                 'ps': [[int(v) for v in r] for r in b['ps'][i]], 'd': int(b['d'][i])} for i in range(len(mask))]
+        num = lambda v: int(v) if abs(float(v)) < 2 ** 24 else float(v)
+        rows = [{'y': int(b['y'][i]), 'ys': b['ys'][i].tolist(), 'p': [num(v) for v in b['p'][i]],
+                 'ps': [[num(v) for v in r] for r in b['ps'][i]], 'd': int(b['d'][i])} for i in range(len(mask))]
         out.append((rows, mask, b))
       if case.get('extra_masked'):
-        rows = [gen_example(jrng, w) for _ in range(case['extra_masked'])]
+        rows = [gen_junk(jrng, w) for _ in range(case['extra_masked'])]
         b = self._arrays(rows, w)
         b[cds.EXAMPLE_MASK_KEY] = np.zeros(len(rows), dtype=bool)
         out.insert(jrng.randrange(len(out) + 1), (rows, [False] * len(rows), b))
@@ -275,7 +312,7 @@ class C05(core.Property):
       rows, mask = [], []
       for r in bspec['rows']:
         if r is None:
-          rows.append(gen_example(jrng, w))
+          rows.append(gen_junk(jrng, w))
           mask.append(False)
         else:
           rows.append(case['examples'][r])
@@ -302,8 +339,9 @@ class C05(core.Property):
     jax = self.jax
     lp = np.asarray(jax.nn.log_softmax(arrays['p']), dtype=np.float64)
     lps = np.asarray(jax.nn.log_softmax(arrays['ps']), dtype=np.float64)
-    return [{'p': [Fraction(float(v)) for v in lp[i]],
-             'ps': [[Fraction(float(v)) for v in row] for row in lps[i]]} for i in range(len(lp))]
+    fr = lambda v: Fraction(float(v)) if np.isfinite(v) else SENTINEL     # extreme (masked) rows only
+    return [{'p': [fr(v) for v in lp[i]],
+             'ps': [[fr(v) for v in row] for row in lps[i]]} for i in range(len(lp))]
 
   # ------------------------------------------------------------------ evaluation
   def evaluate(self, case, ctx):
@@ -407,15 +445,16 @@ class C05(core.Property):
 
     # ---- model answers.  (a) C05 proper: per-row statistics are data, the model masks/reduces/merges;
     #      (b) end-to-end with the metric reference of C14 for specs not touched by the C14 findings
-    def frac(x):
-      return Fraction(float(x))
-
     def row_data(k, kind, shape):
       out = []
       for (rows, mask, _), rs in zip(conc, row_stats):
         st = rs[k]
         data = []
         for i in range(len(rows)):
+          masked = mask is not None and not mask[i]
+          # a real row must have a finite statistic; for a masked row a non-finite one is sent as SENTINEL
+          # (the model, like the property, must ignore the row whatever it holds: theorem C05_mask)
+          frac = lambda x: self._frac(x, masked, ml.name_of(specs[int(k)]), problems)
           a = ml.lead_broadcast(st[1][i], shape).reshape(-1)
           if kind == 'mean':
             wt = ml.lead_broadcast(st[2][i], shape).reshape(-1)
@@ -519,6 +558,7 @@ class C05(core.Property):
     detail['n_real'] = n_real
     detail['batches'] = [[len(rows), None if mask is None else [int(m) for m in mask]] for rows, mask, _ in conc]
     masked_rows = sum(1 for _, mask, _ in conc for m in (mask or []) if not m)
+    detail['masked_row_content'] = [r for rows, mask, _ in conc for r, m in zip(rows, mask or []) if not m][:6]
     tags = [f'n={min(n_real, 9)}{"+" if n_real > 9 else ""}', f'batches={min(len(conc), 6)}',
             'partition=' + ('padded_batch' if 'padded_batch' in case else 'manual'),
             'masked-rows' if masked_rows else 'no-masked-rows']
@@ -528,12 +568,33 @@ class C05(core.Property):
       tags.append('fully-masked-batch')
     if n_real == 0:
       tags.append('empty')
+    extreme = sum(1 for rows, mask, _ in conc for r, m in zip(rows, mask or []) if not m and
+                  any(abs(v) > 1e30 for v in r['p'] + [x for row in r['ps'] for x in row]))
+    nonfinite = sum(1 for (rows, mask, _), rs in zip(conc, row_stats) for i in range(len(rows))
+                    if mask is not None and not mask[i] and
+                    any(not np.all(np.isfinite(a[i])) for st in rs.values() for a in st[1:]))
+    if extreme:
+      tags.append('extreme-padding')
+      ctx.count('masked_rows_with_extreme_scores', extreme)
+    if nonfinite:
+      tags.append('padding-with-nonfinite-statistic')
+      ctx.count('masked_rows_with_nonfinite_statistic', nonfinite)
     key = 'C05/eval'
     if problems:
       key = 'C05/eval/' + problems[0].split(':')[0]
     return Outcome(oracle_fail='; '.join(problems[:3]) or None, corr_fail='; '.join(corr[:3]) or None,
                    nontrivial=n_real > 0 and (len(conc) > 1 or masked_rows > 0), tags=tuple(tags), key=key,
                    detail=detail)
+
+  @staticmethod
+  def _frac(x, masked, name, problems):
+    x = float(x)
+    if np.isfinite(x):
+      return Fraction(x)
+    if not masked:
+      problems.append(f'{name}: non-finite single-example statistic {x} on a real (moderate) example')
+      return Fraction(0)
+    return SENTINEL
 
   @staticmethod
   def _cmp_stat(ans, bst, shape, loss, absum):
@@ -567,7 +628,7 @@ class C05(core.Property):
     rows = list(case['examples'])[:size]
     n_real = len(rows)
     jrng = random.Random(7)
-    rows = rows + [gen_example(jrng, w) for _ in range(size - n_real)]
+    rows = rows + [gen_junk(jrng, w) for _ in range(size - n_real)]
     mask = [True] * n_real + [False] * (size - n_real)
     b = self._arrays(rows, w)
     pred = {'p': b['p'], 'ps': b['ps']}
@@ -604,9 +665,9 @@ class C05(core.Property):
       problems.append(f'{ml.name_of(spec)}: zero().merge(stat) raised {exc_enum(e)}')
       shape_failure = shape_failure or exc_enum(e) in ('ValueError', 'TypeError')
     # the model has no such restriction (flattened statistics)
-    data = [[[Fraction(float(x)), Fraction(float(y))] for x, y in
-             zip(ml.lead_broadcast(st[1], shape).reshape(-1), ml.lead_broadcast(st[2], shape).reshape(-1))]
-            for st in stats]
+    data = [[[self._frac(x, not m, ml.name_of(spec), problems), self._frac(y, not m, ml.name_of(spec), problems)]
+             for x, y in zip(ml.lead_broadcast(st[1], shape).reshape(-1), ml.lead_broadcast(st[2], shape).reshape(-1))]
+            for st, m in zip(stats, mask)]
     lines = [line('c05.evalbatch_s', 'mean', int(np.prod(shape)), data, mask)]
     if end_to_end(spec):
       lines.append(line('c05.evalbatch', spec, L, self._model_rows(spec, rows, self._logp(b)), mask))
